@@ -1,4 +1,4 @@
-"""Path-wise symbolic execution of a small loop body over polynomial normal forms (serves C11).
+"""Path-wise abstract execution (symbolic transfer functions) of a small loop body over polynomial normal forms (serves C11).
 
 A loop body made of assignments to locals, `if` tests, calls that mutate *named ordered sets* (`S.add(x)`, `S.remove(x)`),
 calls of one *named local helper*, `continue` / `break` is executed once per branch combination.  Values are
@@ -194,6 +194,17 @@ class Trunc:
         return f'{self.mode}({self.poly})'
 
 
+def as_poly(v):
+    """A rounded polynomial whose non-constant coefficients are integral, read over integer symbols and a non-negative value:
+    only the constant is rounded (int(F + 0.5) == F).  Anything else is returned unchanged."""
+    import math
+    if isinstance(v, Trunc) and all(c.denominator == 1 for k, c in v.poly.t.items() if k):
+        c = v.poly.const_value()
+        r = {'trunc': math.floor(c), 'floor': math.floor(c), 'ceil': math.ceil(c), 'round': math.floor(c + Fraction(1, 2))}[v.mode]
+        return v.poly - Poly.const(c) + Poly.const(r)
+    return v
+
+
 ROUNDERS = {'int': 'trunc', 'round': 'round', 'math.floor': 'floor', 'math.ceil': 'ceil', 'floor': 'floor', 'ceil': 'ceil'}
 
 # --------------------------------------------------------------------------------------
@@ -308,6 +319,7 @@ class SymExec:
 
     def binop(self, e: ast.BinOp, a, b):
         op = e.op
+        a, b = as_poly(a), as_poly(b)
         if isinstance(op, (ast.Add, ast.Sub)):
             sg = 1 if isinstance(op, ast.Add) else -1
             if isinstance(a, Poly) and isinstance(b, Poly):
@@ -342,6 +354,12 @@ class SymExec:
 
     def call(self, e: ast.Call, p: Path):
         name = pf.dotted(e.func) or ''
+        if name == 'len' and len(e.args) == 1 and not e.keywords and isinstance(e.args[0], ast.Name) and e.args[0].id not in p.env \
+                and e.args[0].id not in self.sets:
+            # size of some other container of the enclosing function: an opaque quantity (never equal to a set size by form)
+            s = f'len({e.args[0].id})'
+            self.lensyms[s] = e.args[0].id
+            return Poly.sym(s)
         if name == 'len' and len(e.args) == 1 and not e.keywords:
             v = self.ev(e.args[0], p)
             if isinstance(v, SetRef):
